@@ -440,6 +440,24 @@ def aggRun {α} (pname : String) (values : List α) (ops : List (Op α)) (s : Sc
   let r := aggOps (key pname) [[(key pname, .opened values (-1) false)], s] ops
   (r.1.getLastD s, r.2.1, r.2.2)
 
+/-! ## the DECLARE position: blocks nested two deep
+
+  Every construct that opens a block — the branches of IF / ELSEIF / ELSE and of CASE … WHEN / ELSE
+  (`executeChild`), the bodies of WHILE and WHILE … IN (a child processor whose block is cleared per iteration
+  and closed at the end), a function body (`scope.CreateChild`) — is a `runOps ([] :: st) …` followed by
+  dropping the block: which construct it was makes no difference to the cursors.  `runNested` is an outer
+  block with statements before and after an inner block. -/
+
+def runNested {α} (st : Stack α) (pre inner post : List (Op α)) : Stack α × List (Res α) × Bool :=
+  match runOps ([] :: st) pre with
+  | (st1, rs1, true) => (st1.tail, rs1, true)
+  | (st1, rs1, false) =>
+    match runOps ([] :: st1) inner with
+    | (st2, rs2, true) => (st2.tail.tail, rs1 ++ rs2, true)
+    | (st2, rs2, false) =>
+      let r3 := runOps st2.tail post
+      (r3.1.tail, rs1 ++ rs2 ++ r3.2.1, r3.2.2)
+
 /-! ## re-entrant histories: the cursor's query calls a user-defined function that works on cursors
 
   cursor.go `Cursor.Open`: refuse a pseudo cursor, refuse an open cursor (`c.view != nil`), THEN evaluate the
